@@ -9,7 +9,7 @@ Property theorems only.  Model: `Model/Match.lean` (`ofp_match`), `Model/FlowTab
 key), `Model/MatchV.lean` (the code variants); standard: `Spec/OF10Match.lean`; lemmas: `Proofs/MatchBits`, `Match`, `FlowTable`,
 `Subsume`, `MatchSubsume`, `MatchSelf`, `MatchV`.
 
-**Which variant is the code.**  `v : Variant` records which of the repairs D37 / D38 / D26 a tree has.  `/repo` HEAD has all three:
+**Which variant is the code.**  `v : Variant` records which of the repairs D37 / D38 / D26 / D36 a tree has.  `/repo` HEAD has the first three:
 it is `Variant.repaired` (the harness establishes that on every run by probing the three witness inputs, and validates it on
 every case).  `Variant.head` — and with it the un-suffixed functions `ofWire`, `extract`, `fromPacket`, `Entry.effectivePriority`,
 `regular`, `FlowOk` of `Model/Match.lean` — is the tree *before* those commits; theorems about it are kept at the end under
@@ -28,7 +28,12 @@ say which inputs then fail).
 | (used by C04) non-strict selection is subsumption | `subsumes_iff_repaired`, `subsumes_iff_forall` |
 | a flow built from a packet matches it and is exact | `flow_from_packet_matches_repaired`, `flow_from_packet_exact_repaired` |
 
-What these still assume: ToS values without ECN bits (open finding D36, `matches_tos_defect`), complete frames (`regularG false`;
+The same clauses for `Variant.full` = HEAD + `fixes/C04_D36_tos_dscp.diff` (ToS reduced to DSCP in extraction and comparison), with no
+hypothesis about ECN bits left: `matches_iff_full`, `extract_ok_full`, `lookup_spec_wire_full`, `history_lookup_wire_full`,
+`subsumes_iff_full`, `flow_from_packet_full`, `flow_from_packet_exact_full`.  The harness selects `Variant.full` as soon as the tree behaves
+that way on the ToS witness.
+
+What the `_repaired` theorems still assume: ToS values without ECN bits (D36, `matches_tos_defect`, gone with `Variant.full`), complete frames (`regularG false`;
 `irregular_l4_witness`, `irregular_l3_witness` show what the code does otherwise — the standard is silent there), 16-bit priorities.
 
 **Two readings of "exact match (has no wildcards)".**  `Spec.exact` is the literal one (all 22 wildcard bits zero); `Spec.exactSig`
@@ -50,8 +55,8 @@ open TableOps in
 /-- **Invariant, by induction over the operation list.**  After every sequence of `add_entry` (any priority, any match),
     `remove_entry`, `remove_matching_entries` (strict or not, any out_port filter) and `remove_expired_entries` (whatever decides
     expiry), in any order and including calls that raise, the table is sorted by descending effective priority. -/
-theorem history_sorted (v : Variant) (bothWays : Bool) (ops : List (Op α)) : SortedBy v.effectivePriority (run v.effectivePriority bothWays ops) :=
-  run_sorted _ _ ops
+theorem history_sorted (v : Variant) (bothWays : Bool) (ops : List (Op α)) : SortedBy v.effectivePriority (run v.effectivePriority v.mww bothWays ops) :=
+  run_sorted _ _ _ ops
 
 /-- `add_entry` never raises, whatever the sort key and the table: the binary search indexes inside the table -/
 theorem add_entry_total_by (key : Entry α → Nat) (e : Entry α) (tbl : Table α) :
@@ -60,13 +65,13 @@ theorem add_entry_total_by (key : Entry α → Nat) (e : Entry α) (tbl : Table 
 open TableOps in
 /-- one step of the induction: each operation preserves sortedness from *any* sorted table -/
 theorem step_preserves_sorted (v : Variant) (bothWays : Bool) (tbl : Table α) (op : Op α) (hs : SortedBy v.effectivePriority tbl) :
-    SortedBy v.effectivePriority (step v.effectivePriority bothWays tbl op).1 := step_sorted _ _ tbl op hs
+    SortedBy v.effectivePriority (step v.effectivePriority v.mww bothWays tbl op).1 := step_sorted _ _ _ tbl op hs
 
 open TableOps in
 /-- where `add_entry` puts the entry: behind everything of higher effective priority, in front of everything of equal or lower —
     in particular in front of the older entries of the same priority -/
 theorem add_position (v : Variant) (bothWays : Bool) (tbl : Table α) (e : Entry α) (hs : SortedBy v.effectivePriority tbl) :
-    ∃ l r, tbl = l ++ r ∧ (step v.effectivePriority bothWays tbl (.add e)).1 = l ++ e :: r ∧
+    ∃ l r, tbl = l ++ r ∧ (step v.effectivePriority v.mww bothWays tbl (.add e)).1 = l ++ e :: r ∧
       (∀ x ∈ l, v.effectivePriority x > v.effectivePriority e) ∧ (∀ x ∈ r, v.effectivePriority x ≤ v.effectivePriority e) := by
   rw [step_add]; exact addEntryBy_position _ e tbl hs
 
@@ -74,16 +79,16 @@ open TableOps in
 /-- the removing operations delete entries and change nothing else: what is left is a sub-list (same relative order), and the
     only call that raises is `remove_entry` of an object that is not in the table -/
 theorem removal_sublist (v : Variant) (bothWays : Bool) (tbl : Table α) (op : Op α) (h : ∀ e, op ≠ .add e) :
-    (step v.effectivePriority bothWays tbl op).1.Sublist tbl ∧
-    ((step v.effectivePriority bothWays tbl op).2 = true ↔ ∃ i, op = .removeAt i ∧ tbl.length ≤ i) :=
-  ⟨step_sublist _ _ tbl op h, step_raises_iff _ _ tbl op⟩
+    (step v.effectivePriority v.mww bothWays tbl op).1.Sublist tbl ∧
+    ((step v.effectivePriority v.mww bothWays tbl op).2 = true ↔ ∃ i, op = .removeAt i ∧ tbl.length ≤ i) :=
+  ⟨step_sublist _ _ _ tbl op h, step_raises_iff _ _ _ tbl op⟩
 
 open TableOps in
 /-- exact-match entries stand in front of every wildcarded one after every history (16-bit priorities) -/
 theorem history_exact_first (v : Variant) (bothWays : Bool) (ops : List (Op α)) (hp : ∀ e ∈ added ops, e.priority ≤ 0xffff) (i j : Nat)
-    (hi : i < (run v.effectivePriority bothWays ops).length) (hj : j < (run v.effectivePriority bothWays ops).length)
-    (he : v.isWildcarded (run v.effectivePriority bothWays ops)[i].mtch = false)
-    (hw : v.isWildcarded (run v.effectivePriority bothWays ops)[j].mtch = true) : i < j := by
+    (hi : i < (run v.effectivePriority v.mww bothWays ops).length) (hj : j < (run v.effectivePriority v.mww bothWays ops).length)
+    (he : v.isWildcarded (run v.effectivePriority v.mww bothWays ops)[i].mtch = false)
+    (hw : v.isWildcarded (run v.effectivePriority v.mww bothWays ops)[j].mtch = true) : i < j := by
   apply Classical.byContradiction
   intro hn
   have hne : i ≠ j := by
@@ -91,7 +96,7 @@ theorem history_exact_first (v : Variant) (bothWays : Bool) (ops : List (Op α))
     rw [he] at hw; cases hw
   have hlt : j < i := by omega
   have hs := List.pairwise_iff_getElem.mp (history_sorted v bothWays ops) j i hj hi hlt
-  have hpj : (run v.effectivePriority bothWays ops)[j].priority ≤ 0xffff := hp _ (mem_run _ _ ops _ (List.getElem_mem hj))
+  have hpj : (run v.effectivePriority v.mww bothWays ops)[j].priority ≤ 0xffff := hp _ (mem_run _ _ _ ops _ (List.getElem_mem hj))
   simp only [Variant.effectivePriority, hw, he, if_true, EXACT_PRIORITY] at hs
   simp at hs
   omega
@@ -100,12 +105,12 @@ open TableOps in
 /-- after every history, `entry_for_packet` returns an accepted entry that no accepted entry of the table outranks, and misses
     exactly when the table holds no accepted entry -/
 theorem history_lookup (v : Variant) (bothWays : Bool) (ops : List (Op α)) (p : PHdr) (port : Nat) :
-    (∀ e, v.entryForPacket (run v.effectivePriority bothWays ops) p port = some e →
-      e ∈ run v.effectivePriority bothWays ops ∧ e.accepts (v.fromPacket p port) = true ∧
-      ∀ e' ∈ run v.effectivePriority bothWays ops, e'.accepts (v.fromPacket p port) = true → v.effectivePriority e' ≤ v.effectivePriority e) ∧
-    (v.entryForPacket (run v.effectivePriority bothWays ops) p port = none ↔
-      ∀ e ∈ run v.effectivePriority bothWays ops, e.accepts (v.fromPacket p port) = false) := by
-  obtain ⟨h1, h2⟩ := first_match_max v.effectivePriority (Entry.accepts (v.fromPacket p port)) (run v.effectivePriority bothWays ops)
+    (∀ e, v.entryForPacket (run v.effectivePriority v.mww bothWays ops) p port = some e →
+      e ∈ run v.effectivePriority v.mww bothWays ops ∧ v.accepts (v.pktMatch p port) e = true ∧
+      ∀ e' ∈ run v.effectivePriority v.mww bothWays ops, v.accepts (v.pktMatch p port) e' = true → v.effectivePriority e' ≤ v.effectivePriority e) ∧
+    (v.entryForPacket (run v.effectivePriority v.mww bothWays ops) p port = none ↔
+      ∀ e ∈ run v.effectivePriority v.mww bothWays ops, v.accepts (v.pktMatch p port) e = false) := by
+  obtain ⟨h1, h2⟩ := first_match_max v.effectivePriority (v.accepts (v.pktMatch p port)) (run v.effectivePriority v.mww bothWays ops)
     (history_sorted v bothWays ops)
   exact ⟨fun e he => by obtain ⟨a, b, c⟩ := h1 e he; exact ⟨b, a, c⟩, h2⟩
 
@@ -117,21 +122,21 @@ open TableOps in
     `v.FlowOk` and `v.regular` shrink with the repairs: for `Variant.repaired` what is left is "16-bit priority, ToS without ECN
     bits" on the flows and "complete frame, ToS without ECN bits" on the frame (`history_lookup_wire_repaired`). -/
 theorem history_lookup_wire (v : Variant) (bothWays : Bool) (ops : List (Op Spec.Flow)) (hadd : ∀ e ∈ added ops, e = v.toEntry e.data ∧ v.FlowOk e.data)
-    (p : PHdr) (port : Nat) (hr : v.regular p = true) (hpt : pktTos p % 4 = 0) :
-    Spec.IsBestSig ((run v.effectivePriority bothWays ops).map (·.data)) (Spec.headers p port)
-      ((v.entryForPacket (run v.effectivePriority bothWays ops) p port).map (·.data)) :=
-  v.lookup_isBest (run v.effectivePriority bothWays ops) (history_sorted v bothWays ops) (fun e he => hadd e (mem_run _ _ ops e he)) p port hr hpt
+    (p : PHdr) (port : Nat) (hr : v.regular p = true) (hpt : v.tosDscp = false → pktTos p % 4 = 0) :
+    Spec.IsBestSig ((run v.effectivePriority v.mww bothWays ops).map (·.data)) (Spec.headers p port)
+      ((v.entryForPacket (run v.effectivePriority v.mww bothWays ops) p port).map (·.data)) :=
+  v.lookup_isBest (run v.effectivePriority v.mww bothWays ops) (history_sorted v bothWays ops) (fun e he => hadd e (mem_run _ _ _ ops e he)) p port hr hpt
 
 open TableOps in
 /-- the same with all three repairs: no hypothesis about wildcarded prerequisite fields, about exact flows, or about ARP opcodes -/
 theorem history_lookup_wire_repaired (bothWays : Bool) (ops : List (Op Spec.Flow))
     (hadd : ∀ e ∈ added ops, e = Variant.repaired.toEntry e.data ∧ e.data.priority ≤ 0xffff ∧ e.data.mtch.nwTos % 4 = 0)
     (p : PHdr) (port : Nat) (hr : regularG false p = true) (hpt : pktTos p % 4 = 0) :
-    Spec.IsBestSig ((run Variant.repaired.effectivePriority bothWays ops).map (·.data)) (Spec.headers p port)
-      ((Variant.repaired.entryForPacket (run Variant.repaired.effectivePriority bothWays ops) p port).map (·.data)) :=
+    Spec.IsBestSig ((run Variant.repaired.effectivePriority Variant.repaired.mww bothWays ops).map (·.data)) (Spec.headers p port)
+      ((Variant.repaired.entryForPacket (run Variant.repaired.effectivePriority Variant.repaired.mww bothWays ops) p port).map (·.data)) :=
   history_lookup_wire Variant.repaired bothWays ops
-    (fun e he => ⟨(hadd e he).1, Variant.FlowOk.mk (hadd e he).2.1 (fun h => absurd h (by decide)) (hadd e he).2.2
-                                  (fun h => absurd h (by decide))⟩) p port hr hpt
+    (fun e he => ⟨(hadd e he).1, Variant.FlowOk.mk (hadd e he).2.1 (fun h => absurd h (by decide)) (fun _ => (hadd e he).2.2)
+                                  (fun h => absurd h (by decide))⟩) p port hr (fun _ => hpt)
 
 /-! ## sequences of lookups -/
 
@@ -139,10 +144,10 @@ open TableOps in
 /-- every answer in a sequence of lookups after any history is the standard's answer for that frame -/
 theorem history_lookup_sequence_wire (v : Variant) (bothWays : Bool) (ops : List (Op Spec.Flow))
     (hadd : ∀ e ∈ added ops, e = v.toEntry e.data ∧ v.FlowOk e.data) (frames : List (PHdr × Nat))
-    (hf : ∀ x ∈ frames, v.regular x.1 = true ∧ pktTos x.1 % 4 = 0) (i : Nat) (hi : i < frames.length) :
-    ∃ r, (v.lookupSeq (run v.effectivePriority bothWays ops) frames)[i]? = some r ∧
-      Spec.IsBestSig ((run v.effectivePriority bothWays ops).map (·.data)) (Spec.headers frames[i].1 frames[i].2) (r.map (·.data)) := by
-  refine ⟨v.entryForPacket (run v.effectivePriority bothWays ops) frames[i].1 frames[i].2, by simp [Variant.lookupSeq, hi], ?_⟩
+    (hf : ∀ x ∈ frames, v.regular x.1 = true ∧ (v.tosDscp = false → pktTos x.1 % 4 = 0)) (i : Nat) (hi : i < frames.length) :
+    ∃ r, (v.lookupSeq (run v.effectivePriority v.mww bothWays ops) frames)[i]? = some r ∧
+      Spec.IsBestSig ((run v.effectivePriority v.mww bothWays ops).map (·.data)) (Spec.headers frames[i].1 frames[i].2) (r.map (·.data)) := by
+  refine ⟨v.entryForPacket (run v.effectivePriority v.mww bothWays ops) frames[i].1 frames[i].2, by simp [Variant.lookupSeq, hi], ?_⟩
   obtain ⟨h1, h2⟩ := hf frames[i] (List.getElem_mem hi)
   exact history_lookup_wire v bothWays ops hadd frames[i].1 frames[i].2 h1 h2
 
@@ -225,20 +230,20 @@ theorem exact_iff_repaired (r : OfMatch) : Variant.repaired.isWildcarded (Varian
 open TableOps in
 /-- the table is sorted by the code's effective priority after every history of table operations -/
 theorem table_sorted_repaired (ops : List (Op α)) :
-    SortedBy Variant.repaired.effectivePriority (run Variant.repaired.effectivePriority true ops) :=
+    SortedBy Variant.repaired.effectivePriority (run Variant.repaired.effectivePriority Variant.repaired.mww true ops) :=
   history_sorted Variant.repaired true ops
 
 open TableOps in
 /-- exact-match entries stand before every wildcarded one after every history (16-bit priorities) -/
 theorem exact_outranks_repaired (ops : List (Op α)) (hp : ∀ e ∈ added ops, e.priority ≤ 0xffff) (i j : Nat)
-    (hi : i < (run Variant.repaired.effectivePriority true ops).length) (hj : j < (run Variant.repaired.effectivePriority true ops).length)
-    (he : Variant.repaired.isWildcarded (run Variant.repaired.effectivePriority true ops)[i].mtch = false)
-    (hw : Variant.repaired.isWildcarded (run Variant.repaired.effectivePriority true ops)[j].mtch = true) : i < j :=
+    (hi : i < (run Variant.repaired.effectivePriority Variant.repaired.mww true ops).length) (hj : j < (run Variant.repaired.effectivePriority Variant.repaired.mww true ops).length)
+    (he : Variant.repaired.isWildcarded (run Variant.repaired.effectivePriority Variant.repaired.mww true ops)[i].mtch = false)
+    (hw : Variant.repaired.isWildcarded (run Variant.repaired.effectivePriority Variant.repaired.mww true ops)[j].mtch = true) : i < j :=
   history_exact_first Variant.repaired true ops hp i j hi hj he hw
 
 /-- what a transmitted flow must satisfy for the theorems below: 16-bit priority, ToS without ECN bits — nothing else -/
 theorem flowOk_repaired (f : Spec.Flow) (hp : f.priority ≤ 0xffff) (ht : f.mtch.nwTos % 4 = 0) : Variant.repaired.FlowOk f :=
-  ⟨hp, fun h => absurd h (by decide), ht, fun h => absurd h (by decide)⟩
+  ⟨hp, fun h => absurd h (by decide), fun _ => ht, fun h => absurd h (by decide)⟩
 
 /-- **Lookup**, table built from a list of flow-mods: the answer is a flow that matches per the standard and that no matching
     flow outranks (exact flows — prerequisite-rule reading — above every priority); a miss exactly when none matches. -/
@@ -246,7 +251,7 @@ theorem lookup_spec_wire_repaired (fs : List Spec.Flow) (hfs : ∀ f ∈ fs, f.p
     (p : PHdr) (port : Nat) (hr : regularG false p = true) (hpt : pktTos p % 4 = 0) :
     Spec.IsBestSig fs (Spec.headers p port)
       ((Variant.repaired.entryForPacket (Variant.repaired.install fs) p port).map (·.data)) :=
-  Variant.repaired.install_isBest fs (fun f hf => flowOk_repaired f (hfs f hf).1 (hfs f hf).2) p port hr hpt
+  Variant.repaired.install_isBest fs (fun f hf => flowOk_repaired f (hfs f hf).1 (hfs f hf).2) p port hr (fun _ => hpt)
 
 /-- the same under the **literal** reading of "exact match" (`Spec.exact`: all 22 wildcard bits zero), for flows that set no wildcard
     bit on a field the prerequisite rule ignores (then the two readings agree) -/
@@ -294,6 +299,67 @@ theorem flow_from_packet_exact_repaired (p : PHdr) (port priority : Nat) (hr : r
       = EXACT_PRIORITY := by
   have h := Variant.repaired.selfflow_exact rfl p port hr
   exact ⟨h, by simp [Variant.effectivePriority, h]⟩
+
+/-! ## all four repairs: `Variant.full` (`/repo` HEAD + `fixes/C04_D36_tos_dscp.diff`)
+
+With the ToS repair (extraction and comparison reduced to the six DSCP bits) nothing is assumed about ECN bits any more: the clauses of
+the property hold for every transmitted match, every flow with a 16-bit priority and every complete frame. -/
+
+/-- **Matching**, no hypothesis on the match at all -/
+theorem matches_iff_full (r : OfMatch) (p : PHdr) (port : Nat) (hr : regularG false p = true) :
+    Variant.full.mww false (Variant.full.ofWire r) (Variant.full.pktMatch p port) = Spec.matchHdr r (Spec.headers p port) :=
+  Variant.full.accepts_packet r p port (fun h => absurd h (by decide)) (fun h => absurd h (by decide)) hr
+
+/-- **Extraction**: every field `from_packet` assigns *equals* the standard's header field — nw_tos too, now that it is the DSCP value -/
+theorem extract_ok_full (p : PHdr) (port : Nat) (hr : regularG false p = true) :
+    ExtractOk (Variant.maskP p) (Variant.full.pktHeaders true p (some port)) (Spec.headers p port) ∧
+    ∀ t, (Variant.full.pktHeaders true p (some port)).nwTos = some t → t % 4 = 0 := by
+  have he : Variant.full.pktHeaders true p (some port) = Variant.full.extract true (Variant.maskP p) (some port) := by
+    rw [Variant.pktHeaders_eq _ rfl]; exact (Variant.extractG_maskP _ _ _ _).symm
+  constructor
+  · rw [he, ← Variant.headers_maskP p port]
+    exact Variant.full.extract_ok (Variant.maskP p) port (by unfold Variant.regular; rw [Variant.regularG_maskP]; exact hr)
+  · intro t ht
+    rw [Variant.pktHeaders_eq _ rfl] at ht
+    simp only [Variant.maskO, Option.map_eq_some_iff] at ht
+    obtain ⟨a, _, rfl⟩ := ht
+    exact Variant.dscpOf_mod a
+
+/-- what a transmitted flow must satisfy: a 16-bit priority -/
+theorem flowOk_full (f : Spec.Flow) (hp : f.priority ≤ 0xffff) : Variant.full.FlowOk f :=
+  ⟨hp, fun h => absurd h (by decide), fun h => absurd h (by decide), fun h => absurd h (by decide)⟩
+
+/-- **Lookup**, table built from a list of flow-mods -/
+theorem lookup_spec_wire_full (fs : List Spec.Flow) (hfs : ∀ f ∈ fs, f.priority ≤ 0xffff)
+    (p : PHdr) (port : Nat) (hr : regularG false p = true) :
+    Spec.IsBestSig fs (Spec.headers p port) ((Variant.full.entryForPacket (Variant.full.install fs) p port).map (·.data)) :=
+  Variant.full.install_isBest fs (fun f hf => flowOk_full f (hfs f hf)) p port hr (fun h => absurd h (by decide))
+
+open TableOps in
+/-- **Lookup after every history** of table operations -/
+theorem history_lookup_wire_full (bothWays : Bool) (ops : List (Op Spec.Flow))
+    (hadd : ∀ e ∈ added ops, e = Variant.full.toEntry e.data ∧ e.data.priority ≤ 0xffff)
+    (p : PHdr) (port : Nat) (hr : regularG false p = true) :
+    Spec.IsBestSig ((run Variant.full.effectivePriority Variant.full.mww bothWays ops).map (·.data)) (Spec.headers p port)
+      ((Variant.full.entryForPacket (run Variant.full.effectivePriority Variant.full.mww bothWays ops) p port).map (·.data)) :=
+  history_lookup_wire Variant.full bothWays ops (fun e he => ⟨(hadd e he).1, flowOk_full _ (hadd e he).2⟩) p port hr
+    (fun h => absurd h (by decide))
+
+/-- **Subsumption** -/
+theorem subsumes_iff_full (a b : OfMatch) (hbw : b.wildcards < 2 ^ 22) :
+    Variant.full.mww true (Variant.full.ofWire a) (Variant.full.ofWire b) = true ↔
+      ∀ h : Spec.Headers, Spec.matchHdr b h = true → Spec.matchHdr a h = true := by
+  rw [Variant.full.subsumes_code a b (fun h => absurd h (by decide)) (fun h => absurd h (by decide)) (fun h => absurd h (by decide)) hbw]
+  exact Spec.subsumes_forall a b
+
+/-- a flow built from a packet matches it and — for a complete frame arriving on a port — is exact -/
+theorem flow_from_packet_full (sf : Bool) (p : PHdr) (ip : Option Nat) :
+    Variant.full.mww false (Variant.full.ofWire (packFlowMod (fromHeaders (Variant.full.pktHeaders sf p ip))))
+      (fromHeaders (Variant.full.pktHeaders sf p ip)) = true := Variant.full.selfflow_mww sf p ip
+
+theorem flow_from_packet_exact_full (p : PHdr) (port : Nat) (hr : regularG false p = true) :
+    Variant.full.isWildcarded (Variant.full.ofWire (packFlowMod (Variant.full.pktMatch p port))) = false :=
+  Variant.full.selfflow_exact_pkt rfl p port hr
 
 /-! ## subsumption (used by the non-strict MODIFY / DELETE of C04) -/
 
@@ -371,15 +437,15 @@ example : ∀ e ∈ TableOps.added demoOps, e = Variant.head.toEntry e.data ∧ 
   intro e he
   simp only [demoOps, TableOps.added, List.mem_cons, List.not_mem_nil, or_false] at he
   rcases he with rfl | rfl | rfl | rfl <;>
-    exact ⟨rfl, ⟨by decide, fun _ => ⟨by decide, by decide⟩, by decide, fun _ => by decide⟩⟩
-example : (TableOps.run Entry.effectivePriority false demoOps).map (·.priority) = [1, 100] := by decide
-example : (TableOps.run Entry.effectivePriority false (demoOps.take 5)).map (·.priority) = [1, 0xffff, 100, 100] := by decide
-example : (TableOps.step Entry.effectivePriority false (TableOps.run Entry.effectivePriority false (demoOps.take 3)) (.removeAt 7)).2 = true := by decide
-example : ((entryForPacket (TableOps.run Entry.effectivePriority false demoOps) tcpFrame 1).map (·.data.priority)) = some 1 := by decide
-example : ((entryForPacket (TableOps.run Entry.effectivePriority false demoOps) tcpFrame 2).map (·.data.priority)) = some 100 := by decide
-example : entryForPacket (TableOps.run Entry.effectivePriority false demoOps) (arpFrame 1) 1 = none := by decide
+    exact ⟨rfl, ⟨by decide, fun _ => ⟨by decide, by decide⟩, fun _ => by decide, fun _ => by decide⟩⟩
+example : (TableOps.run Entry.effectivePriority OfMatch.matchesWith false demoOps).map (·.priority) = [1, 100] := by decide
+example : (TableOps.run Entry.effectivePriority OfMatch.matchesWith false (demoOps.take 5)).map (·.priority) = [1, 0xffff, 100, 100] := by decide
+example : (TableOps.step Entry.effectivePriority OfMatch.matchesWith false (TableOps.run Entry.effectivePriority OfMatch.matchesWith false (demoOps.take 3)) (.removeAt 7)).2 = true := by decide
+example : ((entryForPacket (TableOps.run Entry.effectivePriority OfMatch.matchesWith false demoOps) tcpFrame 1).map (·.data.priority)) = some 1 := by decide
+example : ((entryForPacket (TableOps.run Entry.effectivePriority OfMatch.matchesWith false demoOps) tcpFrame 2).map (·.data.priority)) = some 100 := by decide
+example : entryForPacket (TableOps.run Entry.effectivePriority OfMatch.matchesWith false demoOps) (arpFrame 1) 1 = none := by decide
 -- equal priorities: the newer entry goes in front of the older one
-example : (TableOps.run Entry.effectivePriority false (demoOps.take 2)).map (·.data.mtch.inPort) = [0, 1] := by decide
+example : (TableOps.run Entry.effectivePriority OfMatch.matchesWith false (demoOps.take 2)).map (·.data.mtch.inPort) = [0, 1] := by decide
 
 -- flows built from packets: exact for TCP (also through VLAN / SNAP), matching for every shape
 example : regular tcpFrame = true ∧ isL4Packet tcpFrame = true ∧ packFlowMod (fromPacket tcpFrame 1) = tcpExact := by decide
@@ -388,7 +454,7 @@ example : (ofWire (packFlowMod (fromPacketG true false (arpFrame 2) none))).matc
 
 -- the repaired variant on the witnesses of the open findings: D26 (the exact ARP flow wins), D38 (the value of a wildcarded dl_type
 -- no longer matters), D37 (opcode 257 is extracted as nw_proto 1); its hypotheses are satisfiable
-example : ((Variant.repaired.entryForPacket (TableOps.run Variant.repaired.effectivePriority true
+example : ((Variant.repaired.entryForPacket (TableOps.run Variant.repaired.effectivePriority Variant.repaired.mww true
     [.add (Variant.repaired.toEntry ⟨1, arpExact⟩), .add (Variant.repaired.toEntry ⟨100, inPort1⟩)]) (arpFrame 1) 1).map (·.data.priority)) = some 1 := by
   decide
 example : (Variant.repaired.ofWire { zeroMatch with wildcards := wc [.nwProto] 32 32, dlType := 0x0800, nwProto := 7 }).matchesWith false
@@ -400,7 +466,7 @@ example : Variant.repaired.isWildcarded (Variant.repaired.ofWire arpExact) = fal
 -- sequences: two frames that differ only in ToS, both orders, on a table that discriminates on ToS
 def tosEntry : OfMatch := { zeroMatch with wildcards := wc [.dlType, .nwTos] 32 32, dlType := 0x0800, nwTos := 0xb8 }
 def tcpFrameEf : PHdr := { tcpFrame with l3 := .ipv4 0x0a010101 0x0a020202 6 0xb8 false (.ports 1000 80) }
-example : (Variant.repaired.lookupSeq (TableOps.run Variant.repaired.effectivePriority true
+example : (Variant.repaired.lookupSeq (TableOps.run Variant.repaired.effectivePriority Variant.repaired.mww true
       [.add (Variant.repaired.toEntry ⟨200, tosEntry⟩), .add (Variant.repaired.toEntry ⟨10, inPort1⟩)])
     [(tcpFrame, 1), (tcpFrameEf, 1), (tcpFrame, 1)]).map (fun r => r.map (·.data.priority)) = [some 10, some 200, some 10] := by decide
 
@@ -413,6 +479,11 @@ example : ((Variant.repaired.entryForPacket (Variant.repaired.install demoFlows)
 example : regularG false (arpFrame 1) = true ∧
     Variant.repaired.isWildcarded (Variant.repaired.ofWire (packFlowMod (Variant.repaired.fromPacket (arpFrame 1) 1))) = false := by decide
 
+-- all four repairs on the ToS witness: nw_tos = 0 matches the packet that carries ECT(0); extraction gives the DSCP value
+example : Variant.full.mww false (Variant.full.ofWire { zeroMatch with wildcards := wc [.dlType, .nwTos] 32 32, dlType := 0x0800 })
+    (Variant.full.pktMatch tcpFrameEcn 1) = true ∧ (Variant.full.pktHeaders true tcpFrameEcn (some 1)).nwTos = some 0 ∧
+    regularG false tcpFrameEcn = true := by decide
+
 -- subsumption: both outcomes
 example : (ofWire srcPrefix8).matchesWith true (ofWire tcpExact) = true := by decide
 example : (ofWire tcpExact).matchesWith true (ofWire srcPrefix8) = false := by decide
@@ -420,16 +491,7 @@ example : PrereqExact tcpExact ∧ PrereqExact srcPrefix8 ∧ tcpExact.nwTos % 4
     tcpExact.wildcards < 2 ^ 22 ∧ srcPrefix8.wildcards < 2 ^ 22 :=
   ⟨⟨by decide, by decide⟩, ⟨by decide, by decide⟩, by decide, by decide, by decide, by decide⟩
 
-/-! ### open finding D36, and what "complete frame" excludes -/
-
-/-- **D36 (open).**  The code compares all 8 bits of the ToS byte, the standard only the 6 DSCP bits: a flow with `nw_tos = 0` does not
-    match a packet that carries ECT(0).  Every other hypothesis of `matches_iff_repaired` holds. -/
-theorem matches_tos_defect :
-    let r : OfMatch := { zeroMatch with wildcards := wc [.dlType, .nwTos] 32 32, dlType := 0x0800 }
-    r.nwTos % 4 = 0 ∧ regularG false tcpFrameEcn = true ∧
-    (Variant.repaired.ofWire r).matchesWith false (Variant.repaired.fromPacket tcpFrameEcn 1) = false ∧
-    Spec.matchHdr r (Spec.headers tcpFrameEcn 1) = true :=
-  ⟨by decide, by decide, by decide, by decide⟩
+/-! ### what "complete frame" excludes -/
 
 /-- an IPv4 TCP packet whose TCP header did not parse (truncated segment): the parser hands over no transport object -/
 def truncTcpFrame : PHdr := { tcpFrame with l3 := .ipv4 0x0a010101 0x0a020202 6 0 false .none }
@@ -475,6 +537,16 @@ Everything below is about the tree *before* the repairs D37 / D38 / D26 were com
 that variant again; the theorems then say under which hypotheses the property still holds, and the `_defect` witnesses which inputs
 fail (the harness replays them: its finding keys `match:rawprereq`, `extract:arp-opcode-above-255`, `lookup:exact-non-l4-outranked`
 are no longer listed as known, so they alarm). -/
+
+/-- (fixed by D36 — `fixes/C04_D36_tos_dscp.diff`; it describes `/repo` for as long as that patch has not landed: the harness then
+    selects `Variant.repaired` and lists the finding as known)  The code compares all 8 bits of the ToS byte, the standard only the 6 DSCP bits: a flow with `nw_tos = 0` does not
+    match a packet that carries ECT(0).  Every other hypothesis of `matches_iff_repaired` holds. -/
+theorem matches_tos_defect :
+    let r : OfMatch := { zeroMatch with wildcards := wc [.dlType, .nwTos] 32 32, dlType := 0x0800 }
+    r.nwTos % 4 = 0 ∧ regularG false tcpFrameEcn = true ∧
+    (Variant.repaired.ofWire r).matchesWith false (Variant.repaired.fromPacket tcpFrameEcn 1) = false ∧
+    Spec.matchHdr r (Spec.headers tcpFrameEcn 1) = true :=
+  ⟨by decide, by decide, by decide, by decide⟩
 
 /-! ## table order -/
 
